@@ -183,7 +183,8 @@ META = {
 
 MANIFEST_ENTRY = {
     'text': 'The real adaptive loop is executed with symbolic tolerance, limits and reference on an uninterpreted integrand; every feasible stopping index is a path, and on each path the first-stop '
-            'property, the history bookkeeping and the reported error/point count are SMT validity queries over all integrands, tolerances and limits.',
+            'property, the history bookkeeping and the reported error/point count are SMT validity queries over all integrands, tolerances and limits; dimension-wise and extend-split drivers, '
+            'references none / zero / ordinary / tiny, and a run on a Function object that an earlier run has used.',
     'note': 'Trusted: z3, LIFT proxies/numpy facade incl. the linalg.norm facade. Bounded by the evaluation cap.',
 }
 
